@@ -616,3 +616,44 @@ def regular(case):
 
 def tg_only(case):
     return all(s["k"] in ("xf", "cond") for s in case["steps"])
+
+
+# ------------------------------------------------------------------------------------------------
+# wall-clock expiry is NOT a verdict.  "hang" as a verdict is decided structurally inside run_net (the loop is
+# quiescent while run() has not returned).  The outer limits of the framework (per-case SIGALRM, per-shard kill) are
+# only a guard; when one of them fires the observation is {"hang": true}: that case is re-run ONCE, alone, in a
+# fresh worker with the same generous limits; if it expires again there is no verdict for it (excluded from the
+# oracle and from the correspondence, counted in the evidence).
+GUARD_CASE_TIMEOUT = 1800      # >= 10x the idle-machine time of the slowest case kind (a few seconds)
+GUARD_SHARD_TIMEOUT = 14400
+
+
+class Guarded:
+    """mixin for the network properties: resolve(c, o) -> the observation to judge, or None (no verdict)"""
+
+    def _guard_init(self):
+        if not hasattr(self, "_reruns"):
+            self._reruns, self.no_verdict, self.rerun_ok = {}, 0, 0
+
+    def resolve(self, c, o):
+        self._guard_init()
+        if not (isinstance(o, dict) and o.get("hang") is True and "ret" not in o and "runs" not in o):
+            return o
+        import json
+        key = json.dumps(c, sort_keys=True)
+        if key not in self._reruns:
+            from harness.lib.framework import run_worker
+            r = run_worker(self.ID, [c], GUARD_SHARD_TIMEOUT, GUARD_CASE_TIMEOUT)
+            o2 = r[0] if r else {"hang": True}
+            if isinstance(o2, dict) and o2.get("hang") is True and "ret" not in o2 and "runs" not in o2:
+                o2 = None
+                self.no_verdict += 1
+            else:
+                self.rerun_ok += 1
+            self._reruns[key] = o2
+        return self._reruns[key]
+
+    def guard_sample(self):
+        self._guard_init()
+        return {"wall_clock_guard": {"expired_then_rerun_ok": self.rerun_ok, "no_verdict": self.no_verdict,
+                                     "case_limit_s": GUARD_CASE_TIMEOUT}}
